@@ -7,6 +7,10 @@ import os
 # every module can be the target module of a case: each defines the same functions / methods
 FUNCS = '''
 
+def z0():
+    return None
+
+
 def f0(a):
     return None
 
@@ -37,6 +41,7 @@ class K:
 
 # name -> (params [(name, default kind 0 none / 1 None / 2 other)], has_self)
 FUNC_SHAPES = {
+    "z0": ([], False),                  # no parameters at all: only the return annotation can ask for imports
     "f0": ([("a", 0)], False),
     "f1": ([("a", 0), ("b", 1)], False),
     "f2": ([("a", 0), ("b", 0), ("c", 2)], False),
